@@ -195,7 +195,7 @@ def choose_configs(rng, thorough):
     cfgs.append(dict(base, inplace=True))
     cfgs.append(dict(base, update_every=2))
     cfgs.append(dict(base, layer="recurrent", trainer="mstdpet", update_every=2, inplace=True))
-    n_rand = 40 if thorough else 6
+    n_rand = 30 if thorough else 6
     tries = 0
     while n_rand and tries < 1000:
         tries += 1
